@@ -252,3 +252,27 @@ PROPS['C16']['anchors'] = ['store/src/lib.rs']
 PROPS['C17']['anchors'] = ['consensus/src/config.rs', 'mempool/src/config.rs']
 PROPS['C18']['anchors'] = ['crypto/src/lib.rs']
 PROPS['C20']['anchors'] = ['consensus/src/messages.rs', 'crypto/src/lib.rs', 'consensus/src/consensus.rs', 'mempool/src/mempool.rs']
+
+# ---- regenerated statement skeletons (tools/skel.py -> coq/GenCore.v) and the properties whose theorems rest on each function of the node model:
+# a tie lemma (coq/Tie_<fn>.v: regenerated skeleton = model function, for every argument and state) that no longer checks is a broken proof
+# obligation of exactly these properties
+TIE = {
+    'increase_last_voted_round': ['C01', 'C03'],
+    'make_vote': ['C01', 'C03', 'C09', 'C10'],
+    'update_high_qc': ['C01', 'C06', 'C10'],
+    'local_timeout_round': ['C01', 'C03', 'C06', 'C10'],
+    'handle_vote': ['C01', 'C04', 'C06', 'C09', 'C10', 'C19'],
+    'handle_timeout': ['C01', 'C04', 'C06', 'C10', 'C19'],
+    'advance_round': ['C01', 'C06', 'C09', 'C10', 'C19'],
+    'generate_proposal': ['C06', 'C09'],
+    'cleanup_proposer': ['C06', 'C09'],
+    'process_qc': ['C01', 'C03', 'C06', 'C10'],
+    'process_block': ['C01', 'C02', 'C03', 'C05', 'C06', 'C07', 'C08', 'C09'],
+    'handle_proposal': ['C01', 'C03', 'C04', 'C05', 'C06', 'C07', 'C08', 'C09', 'C10'],
+    'handle_tc': ['C01', 'C04', 'C06', 'C09', 'C10'],
+    'store_block': ['C02', 'C07'],
+    'get_ancestors': ['C02', 'C05', 'C07'],
+}
+for _f, _ps in TIE.items():
+    for _p in set(_ps) | {'C15'}:          # C15: the no-panic theorem is about every function of the node model
+        PROPS[_p].setdefault('tie', []).append(_f)
